@@ -215,13 +215,6 @@ Fixpoint credit_all (l : ledger) (a : Z) (cs : list (Z * Z)) : ledger :=
   match cs with [] => l | (d, x) :: r => credit_all (credit l a d x) a r end.
 Definition send_all (l : ledger) (from to : Z) (cs : list (Z * Z)) : option ledger :=
   match debit_all l from cs with Some l' => Some (credit_all l' to cs) | None => None end.
-(** bank.subUnlockedCoins outside a transaction: coin by coin, in denom order; on the first
-    insufficient denom it stops with an error and the coins already subtracted stay subtracted *)
-Fixpoint debit_seq (l : ledger) (a : Z) (cs : list (Z * Z)) : ledger * bool :=
-  match cs with
-  | [] => (l, true)
-  | (d, x) :: r => match debit l a d x with Some l' => debit_seq l' a r | None => (l, false) end
-  end.
 
 (** queues: store keys (height ‖ context id), a set *)
 Definition q_add (e : Z * ctxid) (q : list (Z * ctxid)) : list (Z * ctxid) :=
@@ -584,8 +577,8 @@ Definition withdraw (s : state) (owner prov : Z) : res :=
       if coins_equal ef oe then Some (del_acct owner (oearned s))
       else match coins_sub oe ef with
            | None => None
-           (* unfixed code: SetOwnerEarnedFees rewrites only the denoms that remain positive *)
-           | Some rem => Some (set_coins owner rem (oearned s))
+           (* DeleteOwnerEarnedFees, then SetOwnerEarnedFees of what remains *)
+           | Some rem => Some (set_coins owner rem (del_acct owner (oearned s)))
            end in
     match oearned' with
     | None => Abortt
@@ -660,10 +653,10 @@ Definition expired_batch_handler (c : config) (s : state) (id : ctxid) : state :
   end.
 
 (** Keeper.FilterServiceProviders: [None] = exchange-rate error; otherwise the providers that
-    pass and the total the consumer will be charged *)
-Fixpoint filter_provs (s : state) (x : context) (ps : list Z) : option (list Z * list (Z * Z)) :=
+    pass (the total it also returns is no longer used by the end blocker) *)
+Fixpoint filter_provs (s : state) (x : context) (ps : list Z) : option (list Z) :=
   match ps with
-  | [] => Some ([], [])
+  | [] => Some []
   | p :: r =>
     match get (x_svc x, p) (binds s) with
     | Some b =>
@@ -675,11 +668,7 @@ Fixpoint filter_provs (s : state) (x : context) (ps : list Z) : option (list Z *
         | Some rp =>
           match filter_provs s x r with
           | None => None
-          | Some (ps', tot) =>
-            if dec_truncate_int rp <=? x_cap x
-            (* unfixed code: the undiscounted pricing.Price is summed *)
-            then Some (p :: ps', coins_add (b_pd b) (b_pa b) tot)
-            else Some (ps', tot)
+          | Some ps' => if dec_truncate_int rp <=? x_cap x then Some (p :: ps') else Some ps'
           end
         end
       else filter_provs s x r
@@ -687,15 +676,28 @@ Fixpoint filter_provs (s : state) (x : context) (ps : list Z) : option (list Z *
     end
   end.
 
+(** the fee one provider charges the consumer now (Keeper.GetPrice): denom and amount; a zero
+    fee is the empty coin set *)
+Definition fee_of (s : state) (x : context) (p : Z) : Z * Z :=
+  match get (x_svc x, p) (binds s) with
+  | Some b => (b_pd b, get_price b (time s) (getz (x_cons x, x_svc x, p) (vols s)))
+  | None => (BASE, 0)
+  end.
+
+(** Keeper.GetTotalServiceFees: what the consumer is charged for a batch addressed to [ps] *)
+Fixpoint total_fees (s : state) (x : context) (ps : list Z) : list (Z * Z) :=
+  match ps with
+  | [] => []
+  | p :: r => let '(fd, fee) := fee_of s x p in
+              if fee =? 0 then total_fees s x r else coins_add fd fee (total_fees s x r)
+  end.
+
 (** the compact requests of a new batch (InitiateRequests / buildRequest) *)
 Fixpoint mk_requests (s : state) (x : context) (id : ctxid) (batch : Z) (i : Z) (ps : list Z) : list (reqid * request) :=
   match ps with
   | [] => []
   | p :: r =>
-    let '(fd, fee) := match get (x_svc x, p) (binds s) with
-                      | Some b => (b_pd b, get_price b (time s) (getz (x_cons x, x_svc x, p) (vols s)))
-                      | None => (BASE, 0)
-                      end in
+    let '(fd, fee) := fee_of s x p in
     (* a zero fee is the empty coin set: it carries no denom *)
     ((id, batch, height s, i), mkReq p (if fee =? 0 then BASE else fd) fee (height s) (height s + x_timeout x) true 0)
       :: mk_requests s x id batch (i + 1) r
@@ -734,14 +736,15 @@ Definition new_batch_handler (s : state) (id : ctxid) : state :=
   | Some x =>
     if x_state x =? 0 then
       match filter_provs s x (x_provs x) with
-      | None => s      (* unfixed code: returns before DeleteNewRequestBatch *)
-      | Some (ps, tot) =>
+      | None => dequeue_new (skip_batch s id x) id   (* no provider can be priced: the batch is skipped *)
+      | Some ps =>
         let n := Z.of_nat (length ps) in
         if (0 <? n) && (x_thr x <=? n) then
-          (* DeductServiceFees; unfixed code: a partial debit survives the error (no rollback in the end blocker) *)
-          match debit_seq (led s) (x_cons x) tot with
-          | (l, false) => dequeue_new (on_paused (with_led s l) id x) id
-          | (l, true) => dequeue_new (initiate (with_led s (credit_all l REQ tot)) id x ps) id
+          (* GetTotalServiceFees, DeductServiceFees (all or nothing) *)
+          let tot := total_fees s x ps in
+          match debit_all (led s) (x_cons x) tot with
+          | None => dequeue_new (on_paused s id x) id
+          | Some l => dequeue_new (initiate (with_led s (credit_all l REQ tot)) id x ps) id
           end
         else dequeue_new (skip_batch s id x) id
       end
